@@ -120,6 +120,10 @@ pub fn length_data<'a, N: ToUsizeSpec, F: Fn(&'a [u8]) -> IResult<&'a [u8], N>>(
         forall|i: &'a [u8]| #[trigger] g.requires((i,)),
         forall|i: &'a [u8], r: IResult<&'a [u8], &'a [u8]>| #[trigger] g.ensures((i,), r) ==>
             exists|r0: IResult<&'a [u8], N>| #[trigger] f.ensures((i,), r0) && length_data_post(r0, r),
+        // the same statement without existentials, for a prefix parser whose results are those of fun_of
+        (forall|i: &'a [u8], r0: IResult<&'a [u8], N>| #[trigger] f.ensures((i,), r0) ==> r0 == fun_of(f)(i))
+        ==> ((forall|i: &'a [u8], r: IResult<&'a [u8], &'a [u8]>| #[trigger] g.ensures((i,), r) ==> r == fun_of(g)(i))
+             && (forall|i: &'a [u8]| length_data_post(fun_of(f)(i), #[trigger] fun_of(g)(i)))),
 { |i: &'a [u8]| -> IResult<&'a [u8], &'a [u8]> { unimplemented!() } }
 
 // ---------------------------------------------------------------------------------------------
@@ -248,3 +252,15 @@ pub fn map<'a, O1, O2, F: Fn(&'a [u8]) -> IResult<&'a [u8], O1>, G: Fn(O1) -> O2
                 Err(e) => r == Err::<(&'a [u8], O2), Err<Error<&'a [u8]>>>(e),
             },
 { |i: &'a [u8]| -> IResult<&'a [u8], O2> { unimplemented!() } }
+
+// the integer readers as functions (same status as the other fun_of facts: ASSUMED; Kani shim_be checks be_post)
+#[verifier::external_body]
+pub proof fn axiom_be_fun<'a>()
+    ensures
+        forall|i: &'a [u8], r: IResult<&'a [u8], u8>| #[trigger] be_u8.ensures((i,), r) ==> r == fun_of(be_u8)(i),
+        forall|i: &'a [u8]| be_post(1, i@, #[trigger] fun_of(be_u8)(i), |v: u8| v as int),
+        forall|i: &'a [u8], r: IResult<&'a [u8], u16>| #[trigger] be_u16.ensures((i,), r) ==> r == fun_of(be_u16)(i),
+        forall|i: &'a [u8]| be_post(2, i@, #[trigger] fun_of(be_u16)(i), |v: u16| v as int),
+        forall|i: &'a [u8], r: IResult<&'a [u8], u32>| #[trigger] be_u24.ensures((i,), r) ==> r == fun_of(be_u24)(i),
+        forall|i: &'a [u8]| be_post(3, i@, #[trigger] fun_of(be_u24)(i), |v: u32| v as int),
+{}
